@@ -1,10 +1,11 @@
 (* engines "fcache" / "fcache-spec" (C04, file-cache layer; model Hist/FcacheChunk.v)
 
-   case:  <filesz> <pgszlog> <order> <cap> | <op> <op> ...          (hex numbers)
-     G:<pos>:<mf>:<rf>   P:<h>   R:<pos>:<len>:<mf>:<rf>
-     K:<pos>:<len>:<mf>:<rf>:<al>   H:<pos>:<len>:<mf>:<rf>:<al>   Q:<h>   M:<p>
-     <mf>/<rf>/<al> = strings of 0/1 ("-" = none): the i-th mmap/pread/malloc call of
-     the op fails.  File byte at offset o = (o*31 + o/4096*7 + 5) & 0xff.
+   case:  <nfiles> <sz0>,<sz1>,.. <pgszlog> <order> <cap> | <op> <op> ...   (hex numbers)
+     G:<f>:<pos>:<mf>:<rf>   P:<h>   R:<f>:<pos>:<len>:<mf>:<rf>
+     K:<f>:<pos>:<len>:<mf>:<rf>:<al>   H:<f>:<pos>:<len>:<mf>:<rf>:<al>   Q:<h>   M:<p>
+     <f> = file index; <mf>/<rf>/<al> = strings of 0/1 ("-" = none): the i-th
+     mmap/pread/malloc call of the op fails.
+     Byte of file f at offset o = (o*31 + o/4096*7 + 5 + 101*f) & 0xff.
    output ("fcache"): one token per op, then "= <refsum mm> <refsum fb> <live> <policy>"
      G<st>:<len>:<fnv64>  R<st>:<fnv64>  P Q M (errors: just the status)
      K / H followed by a brace-enclosed list of alternatives separated by a bar: the
@@ -18,8 +19,9 @@ open Util
 open FcacheChunk
 
 let byte_tab = Array.init 256 n_of_int
-let file_byte (o : BinNums.coq_N) : BinNums.coq_N =
-  let i = int_of_n o in byte_tab.((i * 31 + i / 4096 * 7 + 5) land 0xff)
+let file_byte (f : BinNums.coq_N) : BinNums.coq_N -> BinNums.coq_N =
+  let fi = int_of_n f in
+  fun o -> let i = int_of_n o in byte_tab.((i * 31 + i / 4096 * 7 + 5 + 101 * fi) land 0xff)
 
 let fnv64 (bs : BinNums.coq_N list) : string =
   let h = ref 0xcbf29ce484222325L in
@@ -37,31 +39,42 @@ let bits (s : string) : bool list =
 let policy_of_int = function 0 -> NEVER | 1 -> ALWAYS | 3 -> TRY_ONCE | _ -> TRY
 
 type pop =
-  | PGet of BinNums.coq_N * bool list * bool list
+  | PGet of BinNums.coq_N * BinNums.coq_N * bool list * bool list            (* file, pos *)
   | PPut of int
-  | PRead of BinNums.coq_N * BinNums.coq_N * bool list * bool list
-  | PChunk of bool * BinNums.coq_N * BinNums.coq_N * bool list * bool list * bool list  (* hold? *)
+  | PRead of BinNums.coq_N * BinNums.coq_N * BinNums.coq_N * bool list * bool list
+  | PChunk of bool * BinNums.coq_N * BinNums.coq_N * BinNums.coq_N
+              * bool list * bool list * bool list                               (* hold? *)
   | PChunkPut of int
   | PPolicy of int
 
 let parse_op (s : string) : pop =
   match split_on ':' s with
-  | ["G"; p; mf; rf] -> PGet (n_of_hex p, bits mf, bits rf)
+  | ["G"; f; p; mf; rf] -> PGet (n_of_hex f, n_of_hex p, bits mf, bits rf)
   | ["P"; h] -> PPut (int_of_n (n_of_hex h))
-  | ["R"; p; l; mf; rf] -> PRead (n_of_hex p, n_of_hex l, bits mf, bits rf)
-  | ["K"; p; l; mf; rf; al] -> PChunk (false, n_of_hex p, n_of_hex l, bits mf, bits rf, bits al)
-  | ["H"; p; l; mf; rf; al] -> PChunk (true, n_of_hex p, n_of_hex l, bits mf, bits rf, bits al)
+  | ["R"; f; p; l; mf; rf] -> PRead (n_of_hex f, n_of_hex p, n_of_hex l, bits mf, bits rf)
+  | ["K"; f; p; l; mf; rf; al] ->
+      PChunk (false, n_of_hex f, n_of_hex p, n_of_hex l, bits mf, bits rf, bits al)
+  | ["H"; f; p; l; mf; rf; al] ->
+      PChunk (true, n_of_hex f, n_of_hex p, n_of_hex l, bits mf, bits rf, bits al)
   | ["Q"; h] -> PChunkPut (int_of_n (n_of_hex h))
   | ["M"; p] -> PPolicy (int_of_n (n_of_hex p))
   | _ -> failwith ("bad op " ^ s)
 
-type hdr = { filesz : BinNums.coq_N; pgshift : BinNums.coq_N; order : BinNums.coq_N; cap : BinNums.coq_N }
+type hdr = { nfiles : int; sizes : BinNums.coq_N array; pgshift : BinNums.coq_N;
+             order : BinNums.coq_N; cap : BinNums.coq_N }
 
 let parse_case (line : string) : hdr * string list =
   match words line with
-  | fs :: pl :: od :: cp :: "|" :: ops ->
-      { filesz = n_of_hex fs; pgshift = n_of_hex pl; order = n_of_hex od; cap = n_of_hex cp }, ops
+  | nf :: szs :: pl :: od :: cp :: "|" :: ops ->
+      let nfiles = int_of_n (n_of_hex nf) in
+      let sizes = Array.of_list (Stdlib.List.map n_of_hex (split_on ',' szs)) in
+      if Array.length sizes <> nfiles then failwith "bad case: sizes";
+      { nfiles; sizes; pgshift = n_of_hex pl; order = n_of_hex od; cap = n_of_hex cp }, ops
   | _ -> failwith "bad case"
+
+(* fc->info[fidx].filesz; the generator never uses an index outside the set *)
+let fsz (h : hdr) (f : BinNums.coq_N) : BinNums.coq_N =
+  let i = int_of_n f in if i < h.nfiles then h.sizes.(i) else BinNums.N0
 
 let orc mf rf adj al = { o_ev = []; o_mf = mf; o_rf = rf; o_adj = adj; o_al = al }
 
@@ -110,7 +123,7 @@ let canon (m : machine) : string =
 
 let run_case (line : string) : string =
   let h, ops = parse_case line in
-  let stp m o = step h.pgshift h.order h.filesz file_byte true m o in
+  let stp m o = step h.pgshift h.order (fsz h) file_byte true true m o in
   let m = ref (init_machine h.cap h.cap) in
   let out = Buffer.create 256 in
   let stop = ref false in
@@ -118,18 +131,18 @@ let run_case (line : string) : string =
     if not !stop then begin
       let tok =
         match parse_op s with
-        | PGet (p, mf, rf) ->
-            let r, m1 = stp !m (OpGet (p, orc mf rf [] [])) in m := m1; show_out "G" `Get r
+        | PGet (f, p, mf, rf) ->
+            let r, m1 = stp !m (OpGet (f, p, orc mf rf [] [])) in m := m1; show_out "G" `Get r
         | PPut i -> let r, m1 = stp !m (OpPut (nat_of_int i)) in m := m1; "P"
-        | PRead (p, l, mf, rf) ->
-            let r, m1 = stp !m (OpPread (p, l, orc mf rf [] [])) in m := m1; show_out "R" `Read r
-        | PChunk (hold, p, l, mf, rf, al) ->
+        | PRead (f, p, l, mf, rf) ->
+            let r, m1 = stp !m (OpPread (f, p, l, orc mf rf [] [])) in m := m1; show_out "R" `Read r
+        | PChunk (hold, f, p, l, mf, rf, al) ->
             let tag = if hold then "H" else "K" in
             let npages = int_of_n l / (1 lsl int_of_n h.pgshift) + 2 in
             let alts = Stdlib.List.init (npages + 1) (fun j ->
               let adj = Stdlib.List.init j (fun _ -> true) in
               let o = orc mf rf adj al in
-              let r, m1 = stp !m (if hold then OpChunkHold (p, l, o) else OpChunk (p, l, o)) in
+              let r, m1 = stp !m (if hold then OpChunkHold (f, p, l, o) else OpChunk (f, p, l, o)) in
               show_out "" `Chunk r, m1) in
             let strs = Stdlib.List.sort_uniq compare (Stdlib.List.map fst alts) in
             let cans = Stdlib.List.sort_uniq compare (Stdlib.List.map (fun (_, m1) -> canon m1) alts) in
@@ -161,9 +174,8 @@ let spec_case (line : string) : string =
       let toks = words impl in
       let pgsz = 1 lsl int_of_n h.pgshift in
       let cap = int_of_n h.cap in
-      let pceil = pageceil h.pgshift h.filesz in
-      let pceil_i = int_of_n_sat pceil in
-      let slice_hash p l = fnv64 (slice h.filesz file_byte p l) in
+      let pceil_of f = int_of_n_sat (pageceil h.pgshift (fsz h f)) in
+      let slice_hash f p l = fnv64 (slice (fsz h f) (file_byte f) p l) in
       let off_t_max_ok p l = int_of_n_sat p < max_int / 8 && int_of_n_sat l < max_int / 8 in
       let pols = ref [2] in                 (* policies possibly in force *)
       let outstanding = ref 0 in            (* references held by handles *)
@@ -194,7 +206,8 @@ let spec_case (line : string) : string =
                      fail (where ^ "ERR_SYSTEM without any I/O, mmap or allocation failure")
                | _ -> fail (where ^ "unexpected token")) in
             (match parse_op o with
-             | PGet (p, mf, rf) ->
+             | PGet (f, p, mf, rf) ->
+                 let pceil_i = pceil_of f in
                  let pi = int_of_n_sat p in
                  (match split_on ':' t with
                   | ["G0"; l; hsh] ->
@@ -203,7 +216,7 @@ let spec_case (line : string) : string =
                       if li < 1 then fail (where ^ "empty entry")
                       else if li > pgsz lsl int_of_n h.order then fail (where ^ "entry longer than a mapping")
                       else if pi < pceil_i && pi + li > pceil_i then fail (where ^ "entry extends past the EOF page")
-                      else if hsh <> slice_hash p ln then fail (where ^ "bytes differ from the file slice");
+                      else if hsh <> slice_hash f p ln then fail (where ^ "bytes differ from the slice of this file");
                       Hashtbl.replace fce_live !nfce true; Stdlib.incr nfce; outstanding := !outstanding + 1
                   | [g] when String.length g > 1 && g.[0] = 'G' ->
                       status_rules ~tag:"G" ~beyond:(pi >= pceil_i) ~own_fail:(ones mf + ones rf > 0)
@@ -214,10 +227,11 @@ let spec_case (line : string) : string =
              | PPut i ->
                  if t <> "P" then fail (where ^ "unexpected token");
                  if Hashtbl.mem fce_live i then (Hashtbl.remove fce_live i; outstanding := !outstanding - 1)
-             | PRead (p, l, mf, rf) ->
+             | PRead (f, p, l, mf, rf) ->
+                 let pceil_i = pceil_of f in
                  (match split_on ':' t with
                   | ["R0"; hsh] ->
-                      if hsh <> slice_hash p l then fail (where ^ "bytes differ from the file slice")
+                      if hsh <> slice_hash f p l then fail (where ^ "bytes differ from the slice of this file")
                   | [g] when String.length g > 1 && g.[0] = 'R' ->
                       status_rules ~tag:"R" ~beyond:(int_of_n_sat p + int_of_n_sat l > pceil_i)
                         ~own_fail:(ones mf + ones rf > 0) ~own_entries:0
@@ -225,14 +239,15 @@ let spec_case (line : string) : string =
                   | _ -> fail (where ^ "unexpected token"));
                  if ones mf > 0 then mmfail_seen := true;
                  if int_of_n_sat l > 0 then after_get ()
-             | PChunk (hold, p, l, mf, rf, al) ->
+             | PChunk (hold, f, p, l, mf, rf, al) ->
+                 let pceil_i = pceil_of f in
                  let tag = if hold then 'H' else 'K' in
                  let li = int_of_n_sat l and pi = int_of_n_sat p in
                  let est = if li = 0 then 0 else (pi + li - 1) / pgsz - pi / pgsz + 1 in
                  (match split_on ':' t with
                   | [k0; nent; copied; hsh] when k0 = String.make 1 tag ^ "0" ->
                       let ne = int_of_n (n_of_hex nent) in
-                      if hsh <> slice_hash p l then fail (where ^ "bytes differ from the file slice")
+                      if hsh <> slice_hash f p l then fail (where ^ "bytes differ from the slice of this file")
                       else if copied = "1" && ne <> 0 then fail (where ^ "copied chunk with entries")
                       else if ne > est then fail (where ^ "more entries than pages")
                       else if li > 0 && copied = "0" && ne = 0 then fail (where ^ "no entries and no copy");
